@@ -3,14 +3,14 @@
     Builder::{mock_build, build, build_for_pczt} applied to the calls of request [r]. *)
 From V.Lib Require Import Base MachInt.
 From V.Gen Require Import C14Consts.
-From V.C14 Require Import Model Spec Corr Wf Proofs Bridge.
+From V.C14 Require Import Model Spec Corr Wf Proofs Bridge SignModel SignProofs.
 Local Open Scope Z_scope.
 
 (** A built result contains the requested transparent inputs and outputs in order and, per
     shielded pool, at least the requested spends/outputs with the exact value balance; where
     note values are visible they are the requested values plus zeros (padding has value 0). *)
 Theorem C14_built_contents : forall r b, build r = Ok b ->
-  b_tin b = tin_vals (r_ops r) /\ b_tout b = tout_vs (r_ops r) /\
+  b_tin b = tin_vs (r_ops r) /\ b_tout b = tout_vs (r_ops r) /\
   pool_ok (b_sap b) (ss_vals (r_ops r)) (so_vals (r_ops r)) /\
   pool_ok (b_orc b) (os_vals (r_ops r)) (oo_vals (r_ops r) ++ oc_vals (r_ops r)) /\
   pool_ok (b_iw b) (is_vals (r_ops r)) (io_vals (r_ops r)).
@@ -23,12 +23,13 @@ Theorem C14_built_fee : forall r b, build r = Ok b ->
   fee_paid b = rule_fee (r_rule r) (req_shape r) /\
   tx_shape b = req_shape r /\
   fee_paid b = requested_balance (r_ops r) /\
-  b_fee_paid b = match r_route r with Pczt => None | _ => Some (fee_paid b) end.
+  b_fee_paid b = if is_pczt r then None else Some (fee_paid b).
 Proof. exact built_fee. Qed.
 
 (** An otherwise acceptable request whose inputs differ from outputs plus fee is refused, with
     the exact shortfall or excess. *)
 Theorem C14_unbalanced_fails : forall r hd fee bal,
+  deferral_refused r = false ->
   run_ops r [] (r_ops r) (init_hdr r) 0 = Ok hd ->
   fee_required (r_rule r) (req_shape r) = Some fee ->
   check_version r (r_ops r) (fst hd) = None ->
@@ -102,23 +103,64 @@ Proof. exact build_panic. Qed.
 Theorem C14_bridge : forall c, wf_case c = true -> run_case c = true -> prop_case c = true.
 Proof. exact bridge. Qed.
 
+(** Signing step (symbolic model of authorize_transparent / apply_signatures; [sh_eqb] decides
+    equality of signature-hash terms). sig_index: the scriptSig of input i consists of signatures
+    over the signature hash for (i, value_i, script_i, SIGHASH_ALL) and satisfies the spent coin's
+    script, multisig signatures passing OP_CHECKMULTISIG's ordered matching. *)
+Theorem C14_sig_index : forall (T : Type) (sh_eqb : sighash T -> sighash T -> bool),
+  (forall a b, sh_eqb a b = true <-> a = b) ->
+  forall keys tx cs l, apply_signatures T keys tx cs = Some l ->
+    length l = length cs /\
+    forall i c, nth_error cs i = Some c ->
+      exists ss, nth_error l i = Some ss /\
+                 sigs_over T ss (msg_for T tx i c) /\ input_valid T sh_eqb tx i c ss = true.
+Proof. exact sig_index. Qed.
+(** A signature made over another input's index, or over another value, is rejected. *)
+Theorem C14_wrong_index_rejected : forall (T : Type) (sh_eqb : sighash T -> sighash T -> bool),
+  (forall a b, sh_eqb a b = true <-> a = b) ->
+  forall tx i j c k, i <> j ->
+    verifyb T sh_eqb (Sig T k (msg_for T tx j c)) k (msg_for T tx i c) = false.
+Proof. exact wrong_index_rejected. Qed.
+Theorem C14_wrong_value_rejected : forall (T : Type) (sh_eqb : sighash T -> sighash T -> bool),
+  (forall a b, sh_eqb a b = true <-> a = b) ->
+  forall tx i c c' k, c_spend c = c_spend c' -> c_value c <> c_value c' ->
+    verifyb T sh_eqb (Sig T k (msg_for T tx i c')) k (msg_for T tx i c) = false.
+Proof. exact wrong_value_rejected. Qed.
+(** Multisig signatures must follow the redeem script's key order, not the registration order. *)
+Theorem C14_multisig_order_matters : forall (T : Type) (sh_eqb : sighash T -> sighash T -> bool),
+  (forall a b, sh_eqb a b = true <-> a = b) ->
+  forall msg k1 k2, k1 <> k2 ->
+    checkmultisig T sh_eqb [k1; k2] [Sig T k2 msg; Sig T k1 msg] msg = false.
+Proof. exact multisig_order_matters. Qed.
+(** A multisig input can be signed exactly when the builder model accepts it. *)
+Theorem C14_sign_p2sh_iff : forall (T : Type) keys (tx : T) i v m n,
+  sign_input T keys tx i (mkCoin v (SpP2sh m n)) <> None <-> p2sh_signable keys (m, n) = true.
+Proof. exact sign_p2sh_iff. Qed.
+
 (** Non-vacuity. *)
 Definition ex_req : req :=
-  mkReq Test 3000000 true true false (mkPad false None) (mkPad false None)
+  mkReq Test 3000000 true true false (mkPad false None) (mkPad false None) []
         [TIn 60000; SOut 20000; TOut 25000 false] RZip317 Mock.
 Example ex_builds : exists b, build ex_req = Ok b /\ fee_paid b = 15000 /\ b_nout (b_sap b) = 2.
 Proof. eexists. split; [vm_compute; reflexivity|split; vm_compute; reflexivity]. Qed.
-Example ex_short : build (mkReq Test 3000000 true true false (mkPad false None) (mkPad false None)
+Example ex_short : build (mkReq Test 3000000 true true false (mkPad false None) (mkPad false None) []
         [TIn 59999; SOut 20000; TOut 25000 false] RZip317 Mock) = Err (EInsufficient 1).
 Proof. vm_compute. reflexivity. Qed.
-Example ex_over : build (mkReq Test 3000000 true true false (mkPad false None) (mkPad false None)
+Example ex_over : build (mkReq Test 3000000 true true false (mkPad false None) (mkPad false None) []
         [TIn 60001; SOut 20000; TOut 25000 false] RZip317 Mock) = Err (EChange 1).
 Proof. vm_compute. reflexivity. Qed.
 (** The request on which the unrepaired builder paid for two Ironwood actions that the PCZT did
     not contain is now refused when the version is proposed. *)
-Example ex_required_bundle : build (mkReq Main 3428143 false false true (mkPad false None) (mkPad true None)
+Example ex_required_bundle : build (mkReq Main 3428143 false false true (mkPad false None) (mkPad true None) []
         [Propose V5; TIn 1998] (RLin [0; 0; 0; 0; 0; 0; 999]) Pczt) = Err (EAdd 0 (ETarget V5 None)).
 Proof. vm_compute. reflexivity. Qed.
-Example ex_panic_class : panic_class (mkReq Main 3000000 true false false (mkPad false None) (mkPad false None)
+Example ex_panic_class : panic_class (mkReq Main 3000000 true false false (mkPad false None) (mkPad false None) []
         [SSpend 2100000000000001] RZip317 Mock) = true.
+Proof. vm_compute. reflexivity. Qed.
+
+Example ex_deferred : exists b, build (mkReq Main 3428150 false false false (mkPad false None) (mkPad false (Some 1)) []
+        [OSpend 50000; IOut 35000] RZip317 Deferred) = Ok b /\ b_nout (b_orc b) = 2 /\ b_nout (b_iw b) = 1 /\ fee_paid b = 15000.
+Proof. eexists. split; [vm_compute; reflexivity|repeat split; vm_compute; reflexivity]. Qed.
+Example ex_p2sh_missing_key : build (mkReq Main 2726500 false false false (mkPad false None) (mkPad false None) [5]
+        [TInSh 40000 2 3; TOut 38069 false] (RLin [1000; 3; 1; 0; 0; 0; 0]) Build) = Err ETransparentBuild.
 Proof. vm_compute. reflexivity. Qed.
